@@ -30,6 +30,7 @@ import (
 	authtypes "github.com/cosmos/cosmos-sdk/x/auth/types"
 	banktypes "github.com/cosmos/cosmos-sdk/x/bank/types"
 	govtypes "github.com/cosmos/cosmos-sdk/x/gov/types"
+	slashingtypes "github.com/cosmos/cosmos-sdk/x/slashing/types"
 	stakingtypes "github.com/cosmos/cosmos-sdk/x/staking/types"
 	ethcommon "github.com/ethereum/go-ethereum/common"
 	ethcrypto "github.com/ethereum/go-ethereum/crypto"
@@ -232,6 +233,16 @@ func New(o Options) (*Chain, error) {
 	stGen.Validators = svals
 	stGen.Delegations = dels
 	gen[stakingtypes.ModuleName] = cdc.MustMarshalJSON(&stGen)
+
+	// every bonded validator has signing info on a real chain (created by the slashing hooks when it bonded)
+	var slGen slashingtypes.GenesisState
+	cdc.MustUnmarshalJSON(gen[slashingtypes.ModuleName], &slGen)
+	for _, v := range c.Vals {
+		cons := sdk.ConsAddress(v.Cons.PubKey().Address())
+		slGen.SigningInfos = append(slGen.SigningInfos, slashingtypes.SigningInfo{Address: cons.String(),
+			ValidatorSigningInfo: slashingtypes.NewValidatorSigningInfo(cons, 0, 0, time.Unix(0, 0).UTC(), false, 0)})
+	}
+	gen[slashingtypes.ModuleName] = cdc.MustMarshalJSON(&slGen)
 
 	var evmGen evmtypes.GenesisState
 	cdc.MustUnmarshalJSON(gen[evmtypes.ModuleName], &evmGen)
